@@ -7,7 +7,7 @@ from . import cropgen as G
 from .crop import xyz_site
 
 KINDS = [("scalar", 4), ("tuple2", 3), ("tuple3", 1), ("array", 1), ("str", 1), ("int", 1),
-         ("ndarray", 1), ("ndarray2d", 1), ("intarray", 1)]
+         ("ndarray", 1), ("ndarray2d", 1), ("intarray", 1), ("npscalar", 1), ("complex", 1)]
 # split=True separates along the first axis of each result: tuple entries, array rows
 NOUT = {"tuple2": 2, "tuple3": 3, "ndarray": 3, "ndarray2d": 3, "intarray": 3}
 
@@ -48,11 +48,11 @@ def run_c01(ctx):
     fn = calllog.make_fn(kind, argnames)
     spell = t.pick(["dict", "pairs", "lists"], "spell")
     if spell == "dict":
-        combos = dict(sweep.combos)
+        combos = {a: G.spell_values(t, v) for a, v in sweep.combos}
     elif spell == "pairs":
-        combos = tuple((a, tuple(v)) for a, v in sweep.combos)
+        combos = tuple((a, G.spell_values(t, v, as_tuple=True)) for a, v in sweep.combos)
     else:
-        combos = [[a, list(v)] for a, v in sweep.combos]
+        combos = [[a, G.spell_values(t, v)] for a, v in sweep.combos]
     if len(sweep.combos) == 1 and spell == "pairs" and t.flag(1, 2, "single-pair"):
         combos = (sweep.combos[0][0], tuple(sweep.combos[0][1]))  # documented single-tuple spelling
     cases = [dict(c) for c in sweep.cases] if sweep.cases else None
